@@ -9,6 +9,11 @@ use soroban_sdk::{Symbol, Val, Vec};
 
 type S = InterchainTokenService;
 
+/// structural equality on the host representation — never the repository's own `PartialEq` impls,
+/// which are part of the code under verification
+fn same<T: Wordy>(a: &T, b: &T) -> bool {
+    Words::of(a) == Words::of(b)
+}
 fn me(env: &Env) -> Address {
     env.current_contract_address()
 }
@@ -299,7 +304,7 @@ fn c04_execute_message_transfer() {
             soroban_sdk::obl!(cfg.is_some(), "OBL C04.transfer_needs_registered_token");
             let c = cfg.unwrap_or(TokenIdConfigValue { token_address: Address(0), token_manager_type: TokenManagerType::LockUnlock });
             let c1 = shim::call(1);
-            let recipient = Address(c1.args.w[if c.token_manager_type == TokenManagerType::LockUnlock { 1 } else { 0 }]);
+            let recipient = Address(c1.args.w[if matches!(c.token_manager_type, TokenManagerType::LockUnlock) { 1 } else { 0 }]);
             soroban_sdk::obl!(recipient.clone().to_xdr(&env) == t.destination_address, "OBL C04.recipient_is_decoded_destination: the credited address is the one whose XDR is the message's destination field");
             soroban_sdk::obl!(
                 match c.token_manager_type {
@@ -373,7 +378,7 @@ fn c04_execute_message_deploy() {
                 "OBL C11.remote_deploy_exact: one token deployed by the service at the address derived from (service, token id), from the configured code, constructed with (owner = service, designated minter, this id, the requested metadata)"
             );
             soroban_sdk::obl!(
-                pers().post::<_, TokenIdConfigValue>(&cfg_key(&d.token_id)) == Some(TokenIdConfigValue { token_address: Address(dep.address), token_manager_type: TokenManagerType::NativeInterchainToken })
+                same(&pers().post::<_, TokenIdConfigValue>(&cfg_key(&d.token_id)), &Some(TokenIdConfigValue { token_address: Address(dep.address), token_manager_type: TokenManagerType::NativeInterchainToken }))
                     && pers().changed_only(&[Words::of(&cfg_key(&d.token_id))])
                     && inst().n_changed() == 0,
                 "OBL C11.remote_deploy_registers_once: the id is registered to the deployed address as a service-deployed token; nothing else is written"
@@ -478,7 +483,7 @@ fn c11_deploy_interchain_token() {
             "OBL C11.designated_minter_gets_role"
         );
         soroban_sdk::obl!(
-            pers().post::<_, TokenIdConfigValue>(&cfg_key(&id)) == Some(TokenIdConfigValue { token_address: token.clone(), token_manager_type: TokenManagerType::NativeInterchainToken })
+            same(&pers().post::<_, TokenIdConfigValue>(&cfg_key(&id)), &Some(TokenIdConfigValue { token_address: token.clone(), token_manager_type: TokenManagerType::NativeInterchainToken }))
                 && pers().changed_only(&[Words::of(&cfg_key(&id))])
                 && inst().n_changed() == 0,
             "OBL C11.local_deploy_registers_once"
@@ -504,7 +509,7 @@ fn c11_register_canonical_token() {
             soroban_sdk::obl!(matches!(cs, Some(s) if id == spec_token_id(&env, &s)), "OBL C11.canonical_id_deterministic: the id is the domain-separated function of (chain name, token address)");
             soroban_sdk::obl!(!pers().pre_has(&cfg_key(&id)), "OBL C11.register_needs_free_id: re-registering a taken id fails");
             soroban_sdk::obl!(
-                pers().post::<_, TokenIdConfigValue>(&cfg_key(&id)) == Some(TokenIdConfigValue { token_address: token.clone(), token_manager_type: TokenManagerType::LockUnlock })
+                same(&pers().post::<_, TokenIdConfigValue>(&cfg_key(&id)), &Some(TokenIdConfigValue { token_address: token.clone(), token_manager_type: TokenManagerType::LockUnlock }))
                     && pers().changed_only(&[Words::of(&cfg_key(&id))])
                     && inst().n_changed() == 0,
                 "OBL C11.register_writes_once: the id maps to exactly this token as a lock/unlock token; nothing else is written"
@@ -608,7 +613,7 @@ fn c11_registry_views() {
     let a = S::token_address(&env, id);
     let t = S::token_manager_type(&env, id);
     let cfg: Option<TokenIdConfigValue> = pers().pre(&cfg_key(&id));
-    soroban_sdk::obl!(cfg == Some(TokenIdConfigValue { token_address: a, token_manager_type: t }), "OBL C11.views_agree_with_registry");
+    soroban_sdk::obl!(same(&cfg, &Some(TokenIdConfigValue { token_address: a, token_manager_type: t })), "OBL C11.views_agree_with_registry");
     soroban_sdk::obl!(shim::no_effects() && shim::n_auth() == 0, "OBL C11.registry_views_pure");
     kani::cover!(true, "COVER c11 views");
 }
